@@ -6,6 +6,7 @@ import (
 	"encoding/json"
 	"fmt"
 	"strings"
+	"sync"
 	"testing"
 	"time"
 
@@ -348,6 +349,16 @@ func TestC04(t *testing.T) {
 			}
 			return
 		}
+		var kc struct{ Keys *keysCase }
+		if err := evid.LoadReplay(p, &kc); err == nil && kc.Keys != nil {
+			run.Case(true, 1)
+			run.Case(true, 2)
+			if err := evalKeys(*kc.Keys); err != nil {
+				run.Violation(map[string]any{"Keys": kc.Keys}, err.Error())
+				t.Fatalf("replay fails: %v", err)
+			}
+			return
+		}
 		var c Case
 		if err := evid.LoadReplay(p, &c); err != nil {
 			t.Fatal(err)
@@ -369,6 +380,80 @@ func TestC04(t *testing.T) {
 			hx.Fail(t, run, c, err)
 		}
 	})
+}
+
+// ---------- several sessions with different keys in one process, used at the same time ----------
+
+// keysCase: Workers goroutines, each the receiver of its own session (its own 256-byte key), open Rounds times in turn
+// a packet sealed for them and the same packet with the key id of the next session's key written over its own.
+type keysCase struct {
+	Seed    uint64
+	Workers int
+	Rounds  int
+}
+
+func evalKeys(kc keysCase) error {
+	type sess struct {
+		key, good, forged []byte
+		env               ref.Envelope
+	}
+	ss := make([]sess, kc.Workers)
+	for i := range ss {
+		ss[i].key = hx.Det(kc.Seed*31+uint64(i)+1, 256)
+		ss[i].env = ref.Envelope{Salt: int64(kc.Seed) + 5, Session: int64(i) + 77, MsgID: int64(kc.Seed)<<8 | 1, SeqNo: int32(2*i + 1), Body: hx.Det(kc.Seed+uint64(i)+900, 4*(i+1))}
+		ss[i].good = ref.Seal(ss[i].key, ss[i].env, 8, hx.Det(kc.Seed+uint64(i), 16))
+	}
+	for i := range ss {
+		ss[i].forged = append([]byte{}, ss[i].good...)
+		copy(ss[i].forged, ref.AuthKeyID(ss[(i+1)%len(ss)].key))
+	}
+	errs := make(chan error, kc.Workers)
+	var wg sync.WaitGroup
+	for w := range ss {
+		wg.Add(1)
+		go func(w int) {
+			defer wg.Done()
+			s := ss[w]
+			errs <- hx.Safely(func() error {
+				for r := 0; r < kc.Rounds; r++ {
+					m, err := messages.DeserializeEncrypted(append([]byte{}, s.good...), s.key)
+					if err != nil {
+						return fmt.Errorf("session %d of %d (round %d): a packet that satisfies all four conditions under this session's key was refused: %v", w, kc.Workers, r, err)
+					}
+					if m.MsgID != s.env.MsgID || m.SessionID != s.env.Session || !bytes.Equal(m.Msg, s.env.Body) {
+						return fmt.Errorf("session %d of %d (round %d): yielded a message different from the sealed one", w, kc.Workers, r)
+					}
+					if m, err := messages.DeserializeEncrypted(append([]byte{}, s.forged...), s.key); err == nil {
+						return fmt.Errorf("session %d of %d (round %d): a packet whose key id is that of another session's key was accepted (msg_id=%d body[%d])", w, kc.Workers, r, m.MsgID, len(m.Msg))
+					}
+				}
+				return nil
+			})
+		}(w)
+	}
+	wg.Wait()
+	close(errs)
+	for err := range errs {
+		if err != nil {
+			return err
+		}
+	}
+	return nil
+}
+
+func TestC04Keys(t *testing.T) {
+	if hx.ReplayPath() != "" {
+		return
+	}
+	for i, workers := range []int{2, 2, 3, 16} {
+		kc := keysCase{Seed: run.Seed*7 + uint64(run.Shard)*1009 + uint64(i), Workers: workers, Rounds: run.Pick(30000, 400000) / workers}
+		run.Case(true, evid.Hash("keys", kc.Seed, kc.Workers), "sessions-with-different-keys-at-once")
+		run.Class("keys:openings", int64(2*kc.Rounds*kc.Workers))
+		if err := evalKeys(kc); err != nil {
+			p := run.ViolationNamed(fmt.Sprintf("keys-%d", i), map[string]any{"Keys": kc}, err.Error())
+			t.Fatalf("violation (replay %s): %v", p, err)
+		}
+	}
 }
 
 // ---------- client level: forged / corrupted packets sent to a live client ----------
